@@ -74,6 +74,26 @@ func main() {
 			wsT := newWSTransport(env)
 			defer wsT.close()
 			omit, _ := env.Probe.Options["nullable_input_omittable"].(bool)
+			type kept struct {
+				opSeed int64
+				op     *opgen.Op
+				doc    *ast.QueryDocument
+			}
+			var again []kept
+			defer func() {
+				// several deferred operations in flight at once on ONE executable schema: each still
+				// receives its own groups, all of them and nothing else
+				var cg sync.WaitGroup
+				for _, k := range again {
+					cg.Add(1)
+					go func(k kept) {
+						defer cg.Done()
+						runOp(rep, env, srv, name, k.opSeed, k.op, k.doc, omit, &mu, &evals)
+					}(k)
+				}
+				cg.Wait()
+				rep.Count("operations_rerun_concurrently", int64(len(again)))
+			}()
 			for i := 0; i < nOps; i++ {
 				opSeed := seed*3000017 + int64(i)
 				var op *opgen.Op
@@ -97,6 +117,9 @@ func main() {
 					continue
 				}
 				runOp(rep, env, srv, name, opSeed, op, doc, omit, &mu, &evals)
+				if len(again) < 8 {
+					again = append(again, kept{opSeed, op, doc})
+				}
 				if i%2 == 1 && i%8 != 7 {
 					// the same operation through the websocket transport: it relays every payload of
 					// the response function, the client merges them like any other payload sequence
